@@ -443,6 +443,17 @@ class ShapeDomain(Domain):
             if isinstance(src, NsV):
                 return NsV(False, src.dim)
             if isinstance(src, PairsV):
+                # [f(m, n) for m, n in requests]: when the element is an array, the result is a list of K such arrays
+                g = node.generators[0]
+                if isinstance(node, ast.ListComp) and isinstance(g.target, ast.Tuple) and all(isinstance(e, ast.Name) for e in g.target.elts) and not g.ifs:
+                    from ..core.interp import Frame
+                    fr = Frame(frame.fi, frame.module, {e.id: Scalar() for e in g.target.elts}, parent=frame)
+                    try:
+                        elt = self.interp.ev(node.elt, fr)
+                    except Exception:
+                        elt = None
+                    if isinstance(elt, Sh):
+                        return Tup([elt], 'list')
                 return NsV()
         return None
 
